@@ -29,6 +29,8 @@ pub struct Rec {
     pub forced: bool,
     /// for pipe2/socketpair: the two descriptors the kernel wrote
     pub pair: Option<(i32, i32)>,
+    /// for recvmsg: the descriptors of the SCM_RIGHTS messages the kernel wrote into the control buffer
+    pub many: Vec<i32>,
 }
 
 struct KitState {
@@ -171,10 +173,37 @@ fn handler(n: usize, a: [usize; 6], _nargs: u8) -> Option<usize> {
                 raw_write(st.child_fd, &format!("{}:{}{}\n", sc::shim::name(n), r, if forced { "!" } else { "" }));
             }
         } else {
-            st.log.push(Rec { nr: n, args: a, ret, forced, pair });
+            let many = if n == sc::nr::RECVMSG && !forced && !is_err(ret) { unsafe { scm_rights_of(a[1]) } } else { vec![] };
+            st.log.push(Rec { nr: n, args: a, ret, forced, pair, many });
         }
         Some(ret)
     })
+}
+
+/// The harness's own reading of what the kernel left in the control buffer of a `struct msghdr` (x86_64 layout:
+/// msg_control at +32, msg_controllen at +40; cmsghdr = len u64, level i32, type i32): the descriptors of every
+/// (SOL_SOCKET, SCM_RIGHTS) message that lies inside msg_controllen.  Independent of rusl's iterator.
+pub unsafe fn scm_rights_of(msghdr: usize) -> Vec<i32> {
+    let ctrl = *((msghdr + 32) as *const usize);
+    let clen = *((msghdr + 40) as *const usize);
+    let mut out = vec![];
+    let mut off = 0usize;
+    while ctrl != 0 && off + 16 <= clen {
+        let len = *((ctrl + off) as *const usize);
+        let level = *((ctrl + off + 8) as *const i32);
+        let ty = *((ctrl + off + 12) as *const i32);
+        if len < 16 {
+            break;
+        }
+        let end = len.min(clen - off);
+        if level == 1 && ty == 1 {
+            for i in 0..(end - 16) / 4 {
+                out.push(*((ctrl + off + 16 + 4 * i) as *const i32));
+            }
+        }
+        off += (len + 7) & !7;
+    }
+    out
 }
 
 /// start intercepting; `child_fd` = write end of the (CLOEXEC) pipe for a forked process's records
@@ -212,6 +241,9 @@ pub fn created(r: &Rec) -> Vec<i32> {
     }
     if let Some((a, b)) = r.pair {
         return vec![a, b];
+    }
+    if r.nr == sc::nr::RECVMSG {
+        return r.many.clone();
     }
     let n = r.nr;
     if n == OPENAT || n == OPEN || n == SOCKET || n == ACCEPT || n == ACCEPT4 || n == EPOLL_CREATE1 || n == DUP
